@@ -275,8 +275,13 @@ Fixpoint list_eqb2 {A B} (f : A -> B -> bool) (a : list A) (b : list B) : bool :
 Definition rd_pair (p : string * string) : option (expr * expr) :=
   match rd_expr (fst p), rd_expr (snd p) with Some a, Some r => Some (a, r) | _, _ => None end.
 
+(* the observable of an extraction is WHICH expression is replaced BY WHAT VALUE: the replaced expression is compared as a
+   tree, the replacing one up to polynomial normal form (0 - B instead of -1 * B is the same assumption) *)
+Definition same_value (a b : expr) : bool :=
+  expr_eqq a b ||
+  match pnorm a, pnorm b with Some p, Some q => is_zero (pclean (psub p q)) | _, _ => false end.
 Definition pair_agree (m : expr * expr) (i : string * string) : bool :=
-  match rd_pair i with Some y => expr_eqq (fst m) (fst y) && expr_eqq (snd m) (snd y) | None => false end.
+  match rd_pair i with Some y => expr_eqq (fst m) (fst y) && same_value (snd m) (snd y) | None => false end.
 Definition opt_pair_agree (m : option (expr * expr)) (i : option (string * string)) : bool :=
   match m, i with None, None => true | Some x, Some p => pair_agree x p | _, _ => false end.
 
